@@ -80,6 +80,11 @@ func genC13(t *rapid.T) C13Case {
 		Stats: rapid.Bool().Draw(t, "stats"), Deadline: rapid.Bool().Draw(t, "deadline"), HeaderFirst: rapid.Bool().Draw(t, "hf"), Ser: rapid.Bool().Draw(t, "ser")}
 	n := rapid.IntRange(1, 30).Draw(t, "len")
 	for i := 0; i < n; i++ {
+		// runs of the same envelope matter (they fill the one-slot queues), so repeat the previous symbol with probability 1/3
+		if i > 0 && rapid.IntRange(0, 2).Draw(t, "repeat") == 0 {
+			c.Seq = append(c.Seq, c.Seq[i-1])
+			continue
+		}
 		c.Seq = append(c.Seq, C13Sym{Shape: rapid.IntRange(0, len(al)-1).Draw(t, "shape"), Target: rapid.SampledFrom([]int{0, 0, 1, 1, 2}).Draw(t, "target")})
 	}
 	return c
